@@ -41,10 +41,15 @@ def classify(f, classes):
             and e["key"]["error"] in f["what"]:
         return e
     e = classes.get("marginal_equilibrium_phase")
-    if e and ty in ("reported_unstable", "unsound_trial_phase") and kind.split(":")[0] in ("bubble", "dew", "flash") \
-            and f.get("max_abs_tpd_recomputed") is not None and f["max_abs_tpd_recomputed"] <= e["key"].get("band", NOISE_BAND_DEFAULT) \
-            and "pressure" not in f["what"] and "copy" not in f["what"] and "copies" not in f["what"] and "temperature" not in f["what"]:
-        return e
+    if e and ty in ("reported_unstable", "unsound_trial_phase") and kind.split(":")[0] in ("bubble", "dew", "flash"):
+        band = e["key"].get("band", NOISE_BAND_DEFAULT)
+        codes = f.get("tpd_accepted_by_the_code") or []
+        # tight key: every returned trial phase was accepted by the code on a value below the DEFAULT constant threshold -1e-8
+        # (and within the band), and its recomputed tpd is within the band; anything accepted above -1e-8 is a different behaviour
+        if codes and all(c is not None and -band <= c < -1e-8 for c in codes) \
+                and f.get("max_abs_tpd_recomputed") is not None and f["max_abs_tpd_recomputed"] <= band \
+                and "pressure" not in f["what"] and "copy" not in f["what"] and "copies" not in f["what"] and "temperature" not in f["what"]:
+            return e
     return None
 
 
